@@ -93,6 +93,16 @@ func FromBytes(data []byte) (*Labels, error) {
 // length or missing bytes.
 var ErrBufferTooShort = errors.New("rfc1035label: buffer too short")
 
+// RFC 1035 section 2.3.4 size limits.
+const (
+	maxLabelLen = 63
+	maxNameLen  = 255
+)
+
+// ErrNameTooLong is returned when a label is longer than 63 octets or a name
+// is longer than 255 octets, the limits of RFC 1035 section 2.3.4.
+var ErrNameTooLong = errors.New("rfc1035label: label or name exceeds RFC 1035 size limits")
+
 // fromBytes decodes a serialized stream and returns a list of labels
 func labelsFromBytes(buf []byte) ([]string, error) {
 	var (
@@ -100,6 +110,9 @@ func labelsFromBytes(buf []byte) ([]string, error) {
 		pos, oldPos     int
 		label           string
 		handlingPointer bool
+		// nameLen is the length in octets of the wire form of the name
+		// being read, following pointers.
+		nameLen int
 	)
 
 	for {
@@ -118,6 +131,7 @@ func labelsFromBytes(buf []byte) ([]string, error) {
 		if length == 0 {
 			labels = append(labels, label)
 			label = ""
+			nameLen = 0
 			if handlingPointer {
 				pos = oldPos
 				handlingPointer = false
@@ -138,8 +152,17 @@ func labelsFromBytes(buf []byte) ([]string, error) {
 			oldPos = pos + 1
 			pos = off
 		} else {
+			// length octets 0x40-0xbf are reserved label types, not lengths
+			if length > maxLabelLen {
+				return nil, ErrNameTooLong
+			}
 			if pos+length > len(buf) {
 				return nil, ErrBufferTooShort
+			}
+			// each label takes a length octet; the root label takes one more
+			nameLen += 1 + length
+			if nameLen+1 > maxNameLen {
+				return nil, ErrNameTooLong
 			}
 			chunk = string(buf[pos : pos+length])
 			if label != "" {
